@@ -8,6 +8,7 @@ import JominiModel.Proofs.TextFault
 import JominiModel.Proofs.TextReaderFaithful
 import JominiModel.Proofs.TextReaderUnfit
 import JominiModel.Proofs.TextReaderFull
+import JominiModel.Proofs.TextReaderBuf
 import JominiModel.Generated.Tables
 /-
 C07 — the streaming text reader is independent of read chunking and buffer size.
@@ -491,5 +492,38 @@ theorem C07_buffer_full_iff (data : Bytes) (cap : Nat) (sched : List Step) (hcap
 
 -- both sides occur: `abc=1 ` with 3 bytes overflows, with 4 bytes it does not
 example : ((streamTokens 4 [.repeat_ 1] [97, 98, 99, 61, 49, 32]).out = .end_) := by decide +kernel
+
+/-! ### recycled buffers -/
+
+/-- **`C07_recycled_buffer`: the token stream does not depend on what a caller-provided buffer holds.**
+`streamTokensBuf buf sched data` is the streaming reader built with `TokenReaderBuilder::buffer(buf)` over the CONCRETE
+`BufferWindow` (`Model/TextReaderBuf.lean`: the allocation `buf` with arbitrary stale contents, `start`/`end` offsets,
+`fill_buf` with its `copy_within` — which moves stale bytes too — and the write of the delivered bytes; the fast path's
+8-byte loads and pointer loops read the allocation, bounded only by the pointer comparisons the code makes).  For every
+buffer contents, every schedule (faults included) and every input, its tokens, its outcome and its final state (seen
+through `window()`, position, source) are exactly those of the abstract reader with a buffer of the same length — in
+particular the same for any two buffers of equal length, e.g. a recycled one and a zeroed one.  (A load beyond the
+allocation would be the outcome `ub`; the abstract run never ends in `ub`, `C05_textreader_no_ub`, hence neither does this
+one.) -/
+theorem C07_recycled_buffer (buf : Bytes) (sched : List Step) (data : Bytes) :
+    (streamTokensBuf buf sched data).toks = (streamTokens buf.length sched data).toks ∧
+    (streamTokensBuf buf sched data).out = (streamTokens buf.length sched data).out ∧
+    (streamTokensBuf buf sched data).final.view = (streamTokens buf.length sched data).final ∧
+    (∀ buf' : Bytes, buf'.length = buf.length →
+      (streamTokensBuf buf' sched data).toks = (streamTokensBuf buf sched data).toks ∧
+      (streamTokensBuf buf' sched data).out = (streamTokensBuf buf sched data).out) := by
+  have h := streamTokensBuf_view buf sched data
+  refine ⟨congrArg Run.toks h, congrArg Run.out h, congrArg Run.final h, fun buf' hl => ?_⟩
+  have h' := streamTokensBuf_view buf' sched data
+  rw [hl] at h'
+  exact ⟨(congrArg Run.toks h').trans (congrArg Run.toks h).symm, (congrArg Run.out h').trans (congrArg Run.out h).symm⟩
+
+/-- one `next_opt` call on any well-formed concrete reader (`start ≤ end ≤ len`), whatever lies behind its window -/
+theorem C07_recycled_buffer_call (fuel : Nat) (c : BReader) (h : c.WF) :
+    (bnextOpt fuel c).view = nextOpt fuel c.view ∧ (bnextOpt fuel c).WF := bnextOpt_view fuel c h
+
+-- a buffer full of `"`: the bytes behind the window are never taken for the closing quote
+example : (streamTokensBuf (List.replicate 16 34) [.give 3, .repeat_ 2] [97, 61, 34, 98, 99, 34, 32, 120, 10]).toks =
+    [.unquoted [97], .op .eq, .quoted [98, 99], .unquoted [120]] := by decide +kernel
 
 end Jomini.Props.C07
